@@ -9,6 +9,7 @@ import Driver.C12
 import Driver.C19
 import Driver.C15
 import Driver.C17
+import Driver.Fed
 open GqlVerif GqlVerif.Driver
 
 /-- dispatch one request; unknown op → `unsupported` -/
@@ -25,6 +26,7 @@ def dispatch (op : String) (args : Json) : Option Json :=
   | "c19.run" => some (c19run args)
   | "c15.write" => some (c15write args)
   | "c17.facts" => some (c17facts args)
+  | "fed.exec" => some (fedExec args)
   | "c19.decode" => some (c19decode args)
   | "c05.lex" => some (c05lex args)
   | "c05.limits" => some (c05limits args)
